@@ -223,8 +223,89 @@ def worker(spec_path):
             n += st.get('engine_runs', 0) + st.get('runs', 0)
     elif spec['kind'] == 'files':
         n += adversarial_files()
-    print(json.dumps({'done': n}))
+    ownership = []
+    if spec['kind'] == 'ownership':
+        n, ownership = ownership_probe(core)
+    print(json.dumps({'done': n, 'ownership': ownership}))
     prog.close()
+
+
+def ownership_probe(core):
+    """reference counts of every object handed to the native API are the same before the call and after the Memory object is gone,
+    for accepted and for rejected calls (an unowned DECREF is a delayed use-after-free, an extra INCREF a leak)."""
+    import gc
+    problems, n = [], 0
+    big = int('18446744073709551616')            # 2^64, a fresh int object
+    neg = int('-12345678901234567890')
+    word = int('13503953896175478587')           # a fresh 64-bit int
+    addr = int('1099511627776')
+    text = ''.join(['x', 'y'])
+
+    def calls(w):
+        dw = 2 * w
+        prog = [0, dw, 0, dw, 0, 0, 0, 0]
+        yield 'set_words(list)', lambda m, o: m.set_words(0, o['v']), {'v': [1, 2, 3, word & ((1 << w) - 1)]}
+        yield 'set_words(tuple)', lambda m, o: m.set_words(0, o['v']), {'v': (5, 6)}
+        yield 'set_words(bad item str)', lambda m, o: m.set_words(0, o['v']), {'v': [1, text, 3], 'item': text}
+        yield 'set_words(bad item 2^64)', lambda m, o: m.set_words(0, o['v']), {'v': [1, big], 'item': big}
+        yield 'set_words(bad item negative)', lambda m, o: m.set_words(0, o['v']), {'v': [neg, 1], 'item': neg}
+        yield 'set_words(too long)', lambda m, o: m.set_words(2, o['v']), {'v': list(range(300, 320))}
+        yield 'set_words(outside)', lambda m, o: m.set_words(o['a'], o['v']), {'v': [7, 8], 'a': addr}
+        yield 'set_words(wrap)', lambda m, o: m.set_words(U64 - 1, o['v']), {'v': [7, 8, 9]}
+        yield 'set_words(generator)', lambda m, o: m.set_words(0, o['v']), {'v': (x for x in [1, 2])}
+        yield 'set_words(empty)', lambda m, o: m.set_words(0, o['v']), {'v': []}
+        yield 'set_word(value)', lambda m, o: m.set_word(1, o['x']), {'x': word & ((1 << w) - 1) | (1 << (w - 1))}
+        yield 'set_word(2^64)', lambda m, o: m.set_word(1, o['x']), {'x': big}
+        yield 'set_word(str)', lambda m, o: m.set_word(1, o['x']), {'x': text}
+        yield 'get_word(far)', lambda m, o: m.get_word(o['a']), {'a': addr}
+        yield 'get_word(str)', lambda m, o: m.get_word(o['x']), {'x': text}
+        yield 'add_segment(str)', lambda m, o: m.add_segment(o['x'], 2), {'x': text}
+        yield 'add_segment(2^64)', lambda m, o: m.add_segment(o['x'], 2), {'x': big}
+        for ring in (0, 3):
+            yield f'run halt ring={ring}', lambda m, o, ring=ring: (m.set_words(0, prog), m.run(o['r'], o['w'], o['e'], last_ops_length=ring)), \
+                {'r': (lambda: False), 'w': (lambda b: None), 'e': type('E1', (Exception,), {})}
+            out_loop = [0, 4 * w, 0, 0, dw, 6 * w, dw + 1, 4 * w]
+
+            def raising(b, box=[0]):
+                box[0] += 1
+                if box[0] > 3:
+                    raise ValueError('device')
+            yield f'run device raises ring={ring}', lambda m, o, ring=ring: (m.set_words(0, out_loop), m.run(o['r'], o['w'], o['e'], last_ops_length=ring)), \
+                {'r': (lambda: False), 'w': raising, 'e': type('E2', (Exception,), {})}
+            E3 = type('E3', (Exception,), {})
+
+            def eof(E3=E3):
+                raise E3()
+            in_op = [0, 3 * w + w.bit_length(), 0, 0, 0, 0, 0, 0]
+            yield f'run EOF ring={ring}', lambda m, o, ring=ring: (m.set_words(0, in_op), m.run(o['r'], o['w'], o['e'], last_ops_length=ring)), \
+                {'r': eof, 'w': (lambda b: None), 'e': E3}
+        yield 'run(bad ring)', lambda m, o: m.run(o['r'], o['w'], o['e'], last_ops_length=o['x']), {'r': (lambda: False), 'w': (lambda b: None), 'e': type('E4', (Exception,), {}), 'x': text}
+        yield 'run(not callable)', lambda m, o: (m.set_words(0, [dw, 4 * w, 0, 0, 0, 4 * w]), m.run(o['r'], o['x'], o['e'])), {'r': (lambda: False), 'x': text, 'e': type('E5', (Exception,), {})}
+        yield '__init__(str width)', lambda m, o: m.__init__(o['x']), {'x': text}
+        yield '__init__(bad kw value)', lambda m, o: m.__init__(w, flat_max_words=o['x']), {'x': text}
+
+    for (w, gs, fm) in CONSTRUCTORS_QUICK:
+        for name, fn, objs in calls(w):
+            m = core.Memory(w, garbage_stop=bool(gs), flat_max_words=fm)
+            m.add_segment(0, 8)
+            gc.collect()
+            before = {k: sys.getrefcount(v) for k, v in objs.items()}
+            outcome = 'ok'
+            try:
+                fn(m, objs)
+            except Horizon:
+                outcome = 'horizon'
+            except BaseException as e:  # noqa
+                outcome = type(e).__name__
+                del e
+            del m
+            gc.collect()
+            after = {k: sys.getrefcount(v) for k, v in objs.items()}
+            n += 1
+            if after != before:
+                problems.append({'constructor': [w, gs, fm], 'call': name, 'outcome': outcome,
+                                 'refcount_before': before, 'refcount_after': after})
+    return n, problems
 
 
 def adversarial_files():
@@ -332,8 +413,9 @@ def main():
     for k in range(5):
         specs.append({'kind': 'engines', 'tier': args.tier, 'tasks': et[k::5]})
     specs.append({'kind': 'files', 'tier': args.tier})
+    specs.append({'kind': 'ownership', 'tier': args.tier})
     running, queue = [], list(enumerate(specs))
-    done_total, sanitizer_reports = 0, 0
+    done_total, sanitizer_reports, ownership_problems = 0, 0, 0
     while queue or running:
         while queue and len(running) < max(1, args.jobs):
             idx, spec = queue.pop(0)
@@ -353,6 +435,11 @@ def main():
             ok_line = [l for l in out.splitlines() if l.startswith('{"done"')]
             if ok_line:
                 done_total += json.loads(ok_line[-1])['done']
+                for prob in json.loads(ok_line[-1]).get('ownership', []):
+                    ownership_problems += 1
+                    run.report({'kind': 'reference count of an argument object changed across a native API call', 'class': 'ownership ' + prob['call'],
+                                'case': {'ownership': prob}, 'expected': prob['refcount_before'], 'observed': prob['refcount_after'],
+                                'summary': f"{prob['call']} on Memory{tuple(prob['constructor'])} ({prob['outcome']}): refcounts {prob['refcount_before']} -> {prob['refcount_after']}"})
             if p.returncode != 0 or report or not ok_line:
                 try:
                     progress = json.loads(open(spec['progress']).read().strip() or '{}')
@@ -378,12 +465,12 @@ def main():
         'api_sequences_per_constructor': nseq,
         'constructors': len(CONSTRUCTORS_ALL if args.tier == 'thorough' else CONSTRUCTORS_QUICK),
         'alphabet_size': len(alphabet(64, args.tier)),
-        'workers_with_reports': sanitizer_reports,
+        'workers_with_reports': sanitizer_reports, 'ownership_problems': ownership_problems,
         'bounds': {'depth': 3 if args.tier != 'thorough' else 4, 'sanitizers': 'clang -fsanitize=address,undefined'},
         'exhaustive': True,
     }
     return run.finish(cov, assumptions=[
-        'as strong as AddressSanitizer/UBSan on the explored sequences; reference-count leaks are not detected',
+        'as strong as AddressSanitizer/UBSan on the explored sequences; reference counts are compared only for the argument objects of the ownership probe (about 30 call shapes x 7 constructors)',
         'python-level exceptions (ValueError, MemoryError, OverflowError, TypeError) are the documented way to refuse'])
 
 
